@@ -133,10 +133,39 @@ Fixpoint annot_list (l : list stm) (c : cnt) : option (list xstm * cnt) :=
       end
   end.
 
+(* ifs / loops / try blocks that contain nothing once reads, writes and
+   unmapped code are erased (progress or statistics logging, a local
+   dict built in a loop ...) are dropped: they cannot matter *)
+Fixpoint prune (s : stm) : list stm :=
+  let go := fix go (l : list stm) : list stm :=
+              match l with [] => [] | x :: r => prune x ++ go r end in
+  match s with
+  | SIf a b =>
+      match go a, go b with
+      | [], [] => []
+      | a', b' => [SIf a' b']
+      end
+  | SLoop b =>
+      match go b with
+      | [] => []
+      | b' => [SLoop b']
+      end
+  | STry b hs o f =>
+      let hs' := map (fun h => (fst h, go (snd h))) hs in
+      match go b, go o, go f, flat_map snd hs' with
+      | [], [], [], [] => []
+      | b', o', f', _ => [STry b' hs' o' f']
+      end
+  | other => [other]
+  end.
+
+Fixpoint prune_list (l : list stm) : list stm :=
+  match l with [] => [] | x :: r => prune x ++ prune_list r end.
+
 (* the function's control skeleton: calls, raises, structure, exit kinds;
    None when tree and flat list disagree on the number of exits *)
 Definition xshape (tree : list stm) (flat : list ev) : option (list xstm) :=
-  match annot_list (calls_only_list tree)
+  match annot_list (prune_list (calls_only_list tree))
                    (mkCnt (exit_kinds flat) 0 0 0) with
   | Some (x, c) => match c_kinds c with [] => Some x | _ => None end
   | None => None
@@ -355,19 +384,17 @@ Definition x_run_search : list xstm :=
     XEv (Call "apply_global");            (* run_file: apply_global ... *)
     XEv (Call "enumerate_lines");         (* lines_loop 0 (skipn pos ..) *)
     XLoop 1                               (* lines_loop: l :: r, ln + 1 *)
-      [ XIf 1 [] [];                      (*   progress logging *)
-        XEv (Call "decode_line");         (*   oracle tables of the line *)
+      [ XEv (Call "decode_line");         (*   oracle tables of the line *)
         XLoop 2                           (*   slots_step: s :: r *)
-          [ XIf 2                         (*     slot_step: sl_run s = false *)
+          [ XIf 1                         (*     slot_step: sl_run s = false *)
               [ XEv (Call "apply_single");
-                XIf 3 [XContinue] [] ]    (*       valid = false => (s, []) *)
+                XIf 2 [XContinue] [] ]    (*       valid = false => (s, []) *)
               [];                         (*       else runnable := allp *)
-            XIf 4                         (*     step (sl_def s) .. ln l *)
+            XIf 3                         (*     step (sl_def s) .. ln l *)
               [ XEv (Call "sequence_search") ]
               [ XEv (Call "simple_search") ] ] ];
     XEv (Call "process_sequences");       (* post (slot_states sls) ln *)
-    XIf 5 [ XLoop 3 [ XIf 6 [ XLoop 4 [] ] [] ] ] [];   (* stats logging *)
-    XRet 0 ].
+    XRet 0 ].                             (* (logging blocks are pruned) *)
 
 (* SearchTask.execute  <->  execute *)
 Definition x_execute : list xstm :=
@@ -396,10 +423,8 @@ Definition x_put_result : list xstm :=
     XLoop 0                                       (* queue path: C02 *)
       [ XTry [ XIf 1 [XEv (Call "q_put")] [XEv (Call "q_put_block")];
                XBreak ]
-             [ ("queue.Full", [ XIf 2 [] []; XEv (Call "sleep");
-                                XIf 3 [] [] ]) ]
-             [] [] ];
-    XIf 4 [] [] ].
+             [ ("queue.Full", [ XEv (Call "sleep") ]) ]
+             [] [] ] ].
 
 (* SearchConstraintsManager.apply_global  <->  apply_global(_loop) *)
 Definition x_apply_global : list xstm :=
@@ -626,3 +651,122 @@ Definition fl_src_model : fl_src :=
 Definition on_shape {A} (shape : option (list xstm))
            (f : list xstm -> option A) : option A :=
   match shape with Some t => f t | None => None end.
+
+(* ================================ constructors: which source feeds what *)
+(* [writes t]: every write event of a skeleton with the block it sits in
+   ("" = top level, "then" / "else" / "loop" / "try" ..., nested with '.')
+   and the reads / calls evaluated since the previous write of that block
+   (a branch starts afresh, a loop body inherits the reads of its iterable).
+   Independent assignments may be re-ordered, log lines and locals added;
+   feeding an attribute from another argument, dropping a compilation or
+   moving a write under / out of a condition changes the table. *)
+Definition ctx_in (ctx part : string) : string :=
+  if String.eqb ctx "" then part else (ctx ++ "." ++ part)%string.
+
+Fixpoint writes_stm (ctx : string) (pend : list string) (s : stm)
+  : list (string * string * list string) * list string :=
+  let go := fix go (ctx : string) (pend : list string) (l : list stm)
+    : list (string * string * list string) :=
+    match l with
+    | [] => []
+    | x :: r =>
+        let '(w, pend') := writes_stm ctx pend x in (w ++ go ctx pend' r)%list
+    end in
+  match s with
+  | SEv (Rd c) => ([], (pend ++ [c])%list)
+  | SEv (Call f) => ([], (pend ++ [f])%list)
+  | SEv (Wr c) => ([(c, ctx, pend)], [])
+  | SEv _ | SRaise _ | SExit => ([], pend)
+  | SIf a b =>
+      ((go (ctx_in ctx "then") [] a ++ go (ctx_in ctx "else") [] b)%list, [])
+  | SLoop b => (go (ctx_in ctx "loop") pend b, [])
+  | STry b hs o f =>
+      ((go (ctx_in ctx "try") [] b
+        ++ flat_map (fun h => go (ctx_in ctx "except") [] (snd h)) hs
+        ++ go (ctx_in ctx "tryelse") [] o
+        ++ go (ctx_in ctx "finally") [] f)%list, [])
+  end.
+
+Fixpoint writes_list (ctx : string) (pend : list string) (l : list stm)
+  : list (string * string * list string) :=
+  match l with
+  | [] => []
+  | x :: r =>
+      let '(w, pend') := writes_stm ctx pend x in
+      (w ++ writes_list ctx pend' r)%list
+  end.
+
+(* the writes of one attribute, in source order *)
+Definition writes_to (field : string) (t : list stm)
+  : list (string * list string) :=
+  map (fun w => (snd (fst w), snd w))
+      (filter (fun w => String.eqb (fst (fst w)) field)
+              (writes_list "" [] t)).
+
+(* the last call event of a straight-line constructor *)
+Definition last_call (t : list stm) : option string :=
+  match rev (filter (fun s => match s with SEv (Call _) => true | _ => false
+                              end) t) with
+  | SEv (Call f) :: _ => Some f
+  | _ => None
+  end.
+
+(* SearchDef(pattern, tag, hint, store_result_contents, field_info,
+   constraints=...)  <->  the [sdef] the model works with: the patterns in
+   the order given (a single string = a one-element list), hint present iff
+   truthy, tag / store flag / constraints as given *)
+Definition pattern_arg_list {P} (is_list : bool) (single : P) (many : list P)
+  : list P := if is_list then many else [single].
+
+Definition sdef_of_args (key : Z) (is_list : bool) (single : Z)
+           (many : list Z) (hint_truthy : bool) (hint : Z) (store : bool)
+           (tag : Z) (constraints : list Z) : sdef :=
+  mkSdef key (pattern_arg_list is_list single many)
+         (if hint_truthy then Some hint else None) store tag constraints.
+
+(* expected provenance tables *)
+Definition w_searchdef_init : list (string * list (string * list string)) :=
+  [ ("patterns",                          (* s_pats *)
+     [ ("then", ["arg_pattern"; "re_compile"]);      (* [compile pattern] *)
+       ("else", []);                                 (* [] *)
+       ("else.loop", ["arg_pattern"; "re_compile"]) ]); (* map compile *)
+    ("store_result_contents",             (* s_store *)
+     [ ("", ["arg_store_result_contents"]) ]);
+    ("tag", [ ("", ["arg_tag"]) ]);       (* s_tag *)
+    ("field_info", [ ("", ["arg_field_info"]) ]);
+    ("hint",                              (* s_hint *)
+     [ ("", ["arg_hint"]);                           (* as given (falsy) *)
+       ("then", ["arg_hint"; "re_compile"]) ]);      (* compiled when truthy *)
+    ("sequence_def", [ ("", []) ]) ].     (* None *)
+
+Definition w_searchdefbase_init : list (string * list (string * list string)) :=
+  [ ("constraints_attr", [ ("", ["arg_constraints"]) ]) ].   (* s_cons *)
+
+Definition w_link_to_sequence : list (string * list (string * list string)) :=
+  [ ("sequence_def", [ ("", ["arg_sequence_def"]) ]);
+    ("tag", [ ("", ["arg_tag"]) ]) ].     (* a section's tag: the sequence's *)
+
+Definition w_searchtask_init : list (string * list (string * list string)) :=
+  [ ("proc", [ ("", []) ]);
+    ("info", [ ("", ["arg_info"]) ]);     (* ds, path *)
+    ("stats", [ ("", ["stats_new"]) ]);
+    ("constraints_manager", [ ("", ["arg_constraints_manager"]) ]);
+    ("results_manager", [ ("", ["arg_results_manager"]) ]);
+    ("decode_kwargs",                     (* the decode oracle's policy *)
+     [ ("", []); ("then", ["arg_decode_errors"]) ]);
+    ("results_buffer", [ ("", []) ]) ].   (* t_buf = [] *)
+
+Definition w_resultsmanager_init
+  : list (string * list (string * list string)) :=
+  [ ("results_store", [ ("", ["arg_results_store"]) ]);
+    ("results_queue", [ ("", ["arg_results_queue"]) ]);
+    ("results_collection", [ ("", ["arg_results_collection"]) ]) ].
+
+Definition writes_table (fields : list string) (t : list stm)
+  : list (string * list (string * list string)) :=
+  map (fun f => (f, writes_to f t)) fields.
+
+(* a python dict built from (key, value) items: keys in first-insertion
+   order *)
+Definition dict_keys {C} (items : list (Z * C)) : list Z :=
+  map fst (dedupe_by fst [] items).
